@@ -35,13 +35,16 @@ CASE_TIMEOUT = 300
 SEARCH_CAP = 200
 RULE = ('dataset = 1..4 feature stores (kind in keypoints/descriptors/global_features/matches, type name, dtype, dsize) in '
         'one kapture directory; per store a write history with overwrites, 0-row arrays, nested / spaced / unicode / long '
-        'image names, files for images absent from records_camera; packed twin = same history as tar members (plain or '
+        'image names, files for images absent from records_camera; packed twin = same history as tar members, packed by '
+        'tarfile.add of the really written files (or TarInfo) with mtimes recent / 0 / past / future / mixed and shuffled '
+        'mode, uid, pax records (plain or '
         '"./" spelling, directory members, GNU or PAX format, shuffled when no duplicates), optional stale loose files, '
-        'optional API appends, handlers passed or not, listing through kapture_from_dir or *_from_dir(None); reads = own '
+        'optional API appends (mostly superseding packed names), handlers passed or not, listing through kapture_from_dir or *_from_dir(None); reads = own '
         'dtype/dsize, wrong dsize, wrong dtype, missing image, a few files with a trailing partial element. '
         'append = 1..8 add_array_to_tar calls with repeated names and odd spellings on no / empty / populated archive, '
         'through TarHandler or get_all_tar_handlers(mode a)+image_*_to_file, 1 or 2 sessions, reader after every append. '
-        'kill sweep = one writer subprocess per k in 0..n, SIGKILL after the k-th reported append. '
+        'kill sweep = one writer subprocess per k in 0..n, SIGKILL after the k-th reported append; one append per sweep is '
+        '>= io.DEFAULT_BUFFER_SIZE bytes and not a multiple of 16 KiB. '
         'Non-trivial = a store with an archive holding >= 1 member, or an append case with >= 1 append; '
         'distinct = distinct case content.')
 TRUSTED = ['CPython tarfile (member iteration order, append mode positions at the end of the last member, a reader stops at '
@@ -66,7 +69,7 @@ TECHNIQUE = ('Coq proof over an append-only-log model of an archive (last-wins i
 LEVEL_TEXT = ('Theorems in coq/Props/C12.v hold for every folder, member order and spelling, append history and crash point k: '
               'the index of a packed folder equals the folder (lookup-extensional, same key set), every array reads identically '
               'through archive and directory, the listed image sets / pair sets agree (with and without the records_camera '
-              'filter), append makes (n,b) visible and changes nothing else, the latest version wins, a reader after k completed '
+              'filter), append makes (n,b) visible and changes nothing else, header fields (mtime, mode, owner, pax) never matter, the latest version wins, a reader after k completed '
               'appends sees exactly view(firstn k), monotone in k, close() adds nothing. The model is tied to the code by real '
               'datasets written by kapture writers, packed into tar files, loaded through get_all_tar_handlers/kapture_from_dir, '
               'and by a writer subprocess SIGKILLed after every k. Durability is partial: process kill only.')
